@@ -68,6 +68,11 @@ def install_process(knobs=None):
     import nostr_relay.config as cfgmod
     if not os.path.abspath(cfgmod.__file__).startswith(os.path.abspath(REPO) + os.sep):
         raise RuntimeError("nostr_relay imported from %s, expected %s" % (cfgmod.__file__, REPO))
+    # a deployment may import parts of the relay before its configuration file is loaded (`from nostr_relay.storage
+    # import get_storage` at the top of a module, then Config.load(), then get_storage()): the knob below then
+    # arrives after those imports
+    for name in knobs.get("early_import", []):
+        __import__(name)
     # knobs that are baked in at import time of storage.base
     if "max_limit" in knobs:
         cfgmod.ConfigClass.max_limit = knobs["max_limit"]
